@@ -6,19 +6,19 @@ V = os.path.dirname(os.path.dirname(os.path.abspath(__file__)))
 # id -> (engine, technique, level text, level note, design ref)
 CLAIMED = {
  "C01": ("W", "explicit-state DFS over the real chain (blocks as transitions, store rollback), invariant after every block",
-         "Every history of <= depth ops over a 37-op alphabet (swaps both forms/directions, multi-hop over distinct pools and routes naming the same pool twice, batch, joins, exits, perpetual and leveraged-LP opens/closes/liquidations incl. liquidation at the edge (price moved to where the weakest position sits between insolvency and the safety factor, all positions in one Liquidate list in either order), batches with a request that fails at execution next to an opposite valid one, fee conversion, gaps, donations, pool creation) from mid-life roots is executed as real signed transactions through FinalizeBlock/Commit and reserve==bank / DenomLiquidity==sum(reserves) is evaluated exactly after every block. Genesis round trip: for every root and every single op of the alphabet the state is exported with the application's own ExportAppStateAndValidators, a fresh application is started from the export, the invariant's drift must be identical on both sides and two more blocks are judged on the new chain.",
+         "Every history of <= depth ops over a 37-op alphabet (swaps both forms/directions, multi-hop over distinct pools and routes naming the same pool twice, batch, joins, exits, perpetual and leveraged-LP opens/closes/liquidations incl. liquidation at the edge (price moved to where the weakest position sits between insolvency and the safety factor, all positions in one Liquidate list in either order), batches with a request that fails at execution next to an opposite valid one, fee conversion, gaps, donations, pool creation) from mid-life roots is executed as real signed transactions through FinalizeBlock/Commit and reserve==bank / DenomLiquidity==sum(reserves) is evaluated exactly after every block. Genesis round trip: for every root and every single op of the alphabet the state is exported with the application's own ExportAppStateAndValidators, a fresh application is started from the export, the invariant's drift must be identical on both sides and two more blocks are judged on the new chain. Module-params phase: every field of every governance message of the modules the state lives in at its boundary values and at half / double its stored value, followed by the core ops and by every boolean parameter again (flipped back), root R1. Same-block triples: every ordered triple of different ops of a 7-8 op set as ONE block (roots R0, R1), then an empty block.",
          "Bounded: alphabet amounts, depth 2 (quick) / 3-4 (thorough), single validator; rollback shortcut validated by linear re-execution (traces_validated_against_impl); if that validation ever disagrees (state kept outside the store) the check explores again without the shortcut.", "3/C01"),
  "C02": ("W", "explicit-state DFS over the real chain, invariant after every block",
-         "All histories up to the depth bound over share creators/destroyers (create pool, joins, exits incl. full withdrawals of a non-last committed denom, unbond, leveraged-LP open/close/liquidate, claims) from roots R0/R1/R5/R6 (R6: accounts holding several committed denoms in different orders, locks expired), plus the denom sweep (8 denom-naming commitment messages x 8 denoms) and joins with inflated share quotes; TotalShares == supply == sum committed == custody balance after every block. Genesis round trip: for every root and every single op of the alphabet the state is exported with the application's own ExportAppStateAndValidators, a fresh application is started from the export, the invariant's drift must be identical on both sides and two more blocks are judged on the new chain.",
+         "All histories up to the depth bound over share creators/destroyers (create pool, joins, exits incl. full withdrawals of a non-last committed denom, unbond, leveraged-LP open/close/liquidate, claims) from roots R0/R1/R5/R6 (R6: accounts holding several committed denoms in different orders, locks expired), plus the denom sweep (8 denom-naming commitment messages x 8 denoms) and joins with inflated share quotes; TotalShares == supply == sum committed == custody balance after every block. Genesis round trip: for every root and every single op of the alphabet the state is exported with the application's own ExportAppStateAndValidators, a fresh application is started from the export, the invariant's drift must be identical on both sides and two more blocks are judged on the new chain. Module-params phase: every field of every governance message of the modules the state lives in at its boundary values and at half / double its stored value, followed by the core ops and by every boolean parameter again (flipped back), root R1. Same-block triples: every ordered triple of different ops of a 7-8 op set as ONE block (roots R0, R1), then an empty block.",
          "Bounded alphabet/depth; rollback shortcut validated by linear re-execution.", "3/C02"),
  "C06": ("W", "explicit-state DFS over the real chain, invariant after every block",
-         "All histories up to the depth bound over bond/unbond/borrow/repay/liquidation/interest-gap ops, incl. borrowers who also lend (role collisions), root R3 (un-booked interest) and every field of the vault's governance params message at its boundary values; TotalValue == cash + sum(debt) exactly after every block. Genesis round trip: for every root and every single op of the alphabet the state is exported with the application's own ExportAppStateAndValidators, a fresh application is started from the export, the invariant's drift must be identical on both sides and two more blocks are judged on the new chain.",
+         "All histories up to the depth bound over bond/unbond/borrow/repay/liquidation/interest-gap ops, incl. borrowers who also lend (role collisions), root R3 (un-booked interest) and every field of the vault's governance params message at its boundary values; TotalValue == cash + sum(debt) exactly after every block. Genesis round trip: for every root and every single op of the alphabet the state is exported with the application's own ExportAppStateAndValidators, a fresh application is started from the export, the invariant's drift must be identical on both sides and two more blocks are judged on the new chain. Module-params phase: every field of every governance message of the modules the state lives in at its boundary values and at half / double its stored value, followed by the core ops and by every boolean parameter again (flipped back), root R1.",
          "Bounded alphabet/depth; rollback shortcut validated by linear re-execution.", "3/C06"),
  "C08": ("W", "explicit-state DFS over the real chain, invariant after every block",
-         "All histories up to the depth bound over leveraged-LP opens, consolidations, partial/full closes, bot close-positions, vault drains and price crashes, incl. root R14 (three positions of three owners: several forced closes in ONE sweep / message); pool total == sum positions, position shares == committed at position address, counter == stored positions, closed ids leave nothing behind. Genesis round trip: for every root and every single op of the alphabet the state is exported with the application's own ExportAppStateAndValidators, a fresh application is started from the export, the invariant's drift must be identical on both sides and two more blocks are judged on the new chain.",
+         "All histories up to the depth bound over leveraged-LP opens, consolidations, partial/full closes, bot close-positions, vault drains and price crashes, incl. root R14 (three positions of three owners: several forced closes in ONE sweep / message); pool total == sum positions, position shares == committed at position address, counter == stored positions, closed ids leave nothing behind. Genesis round trip: for every root and every single op of the alphabet the state is exported with the application's own ExportAppStateAndValidators, a fresh application is started from the export, the invariant's drift must be identical on both sides and two more blocks are judged on the new chain. Module-params phase: every field of every governance message of the modules the state lives in at its boundary values and at half / double its stored value, followed by the core ops and by every boolean parameter again (flipped back), root R1.",
          "Bounded alphabet/depth; rollback shortcut validated by linear re-execution.", "3/C08"),
  "C09": ("W", "explicit-state DFS over the real chain, invariant after every block",
-         "All histories up to the depth bound over perpetual opens (both sides, both collaterals), consolidation, top-up, partial/full close, bot close-positions (alone and in the block that feeds a new price: every forced-close branch), a huge long against a 90 % liquidity exit, price moves and long gaps (interest/funding); pool aggregates == sums over MTPs, counter == stored MTPs, amm reserve >= custody. Genesis round trip: for every root and every single op of the alphabet the state is exported with the application's own ExportAppStateAndValidators, a fresh application is started from the export, the invariant's drift must be identical on both sides and two more blocks are judged on the new chain.",
+         "All histories up to the depth bound over perpetual opens (both sides, both collaterals), consolidation, top-up, partial/full close, bot close-positions (alone and in the block that feeds a new price: every forced-close branch), a huge long against a 90 % liquidity exit, price moves and long gaps (interest/funding); pool aggregates == sums over MTPs, counter == stored MTPs, amm reserve >= custody. Genesis round trip: for every root and every single op of the alphabet the state is exported with the application's own ExportAppStateAndValidators, a fresh application is started from the export, the invariant's drift must be identical on both sides and two more blocks are judged on the new chain. Module-params phase: every field of every governance message of the modules the state lives in at its boundary values and at half / double its stored value, followed by the core ops and by every boolean parameter again (flipped back), root R1.",
          "Bounded alphabet/depth; rollback shortcut validated by linear re-execution.", "3/C09"),
 }
 NOT_YET = {}
